@@ -422,6 +422,15 @@ def sym(name):
 
 def app(name, *args, **kw):
     args = tuple(args)
+    if name in ('and', 'or', 'max', 'min') and not kw:
+        flat = []
+        for x in args:            # and(and(a, b), c) == and(a, b, c)
+            xa = x.single_atom() if isinstance(x, Poly) else None
+            if xa is not None and xa[0] == 'app' and xa[1] == name and all(isinstance(y, Poly) for y in xa[2]):
+                flat.extend(xa[2])
+            else:
+                flat.append(x)
+        args = tuple(flat)
     if name in COMMUTATIVE_APPS:
         args = tuple(sorted(args, key=vkey))
     if kw:
